@@ -196,6 +196,84 @@ func init() {
 		}
 		c.Note("C38/cross-reference/requested-block-mismatch-not-rejected", c.P.Pos(vae.Pos()), "RPCProviderServer.ValidateRequest logs a requested-block mismatch between consumer and provider but does not return an error (TODO in the source): agreement on the requested block is not enforced")
 		c.Note("C38/cross-reference/addon[0]-on-empty-addon", c.P.Pos(vae.Pos()), "ValidateAddonsExtensions formats addon[0] in its warning: an empty add-on in a relay whose parse has an add-on indexes an empty string (panic recovered by Relay's deferred recover)")
+		c.Rule("C38f what sets the requested block is what is forwarded: in BaseChainParser.HandleHeaders the header value that overwrites the requested block is taken only in an iteration that has appended that very header to the forwarded list (the provider re-parses with the forwarded headers only, so a block-setting header that is dropped, or a second occurrence that is not forwarded, makes the two sides disagree on the requested block). C38g one key space for extensions: every ExtensionKey built in protocol/chainlib assigns all of Extension, ConnectionType, InternalPath and Addon — the configuration map and the per-message lookup must be keyed alike, or an add-on collection's extension silently stops being recognised on one side")
+		if hh := c.Fn("protocol/chainlib.BaseChainParser.HandleHeaders"); hh != nil {
+			var ow []*ssa.Store
+			ir.EachInstr(hh, func(in ssa.Instruction) {
+				st, ok := in.(*ssa.Store)
+				if !ok {
+					return
+				}
+				if a, ok := st.Addr.(*ssa.Alloc); ok && a.Comment == "overwriteRequestedBlock" {
+					if k, isK := st.Val.(*ssa.Const); isK && k.Value != nil && k.Value.ExactString() == `""` {
+						return
+					}
+					if allocOf(st.Val) == a {
+						return // `return …, overwriteRequestedBlock, …` writing the named result back to itself
+					}
+					ow = append(ow, st)
+				}
+			})
+			isFwd := func(in ssa.Instruction) bool {
+				call := ir.CallOf(in)
+				return call != nil && ir.CalleeName(call) == "builtin:append" && strings.HasSuffix(call.Args[0].Type().String(), "types.Metadata")
+			}
+			if len(ow) == 0 {
+				// no defer-spilled named result: fall back to the phi form
+				c.Undecided("C38f: the assignment of overwriteRequestedBlock was not found in HandleHeaders")
+			}
+			for i, st := range ow {
+				key := "C38f/HandleHeaders/block-setting-header-is-forwarded#" + itoa(i+1)
+				lp := innermostLoop(hh, st.Block())
+				if lp == nil {
+					c.Fail(key, c.P.InstrPos(st), "the requested-block overwrite is assigned outside the loop over the request's headers")
+					continue
+				}
+				if !strings.HasSuffix(ir.Desc(st.Val), ".Value") {
+					c.Fail(key, c.P.InstrPos(st), "the requested-block overwrite is "+trunc(ir.Desc(st.Val), 80)+", not a header's value")
+					continue
+				}
+				if c.mustPassBeforeInIteration(hh, lp, st, isFwd) {
+					c.OK(key, c.P.InstrPos(st), "append(retMetadata, header) precedes overwriteRequestedBlock = header.Value in the same iteration")
+				} else {
+					c.Fail(key, c.P.InstrPos(st), "a header can set the requested block in an iteration that did not forward it: the provider, which sees only the forwarded headers, resolves a different requested block")
+				}
+			}
+		}
+		{
+			nKeys := 0
+			for _, f := range c.P.AllFuncs {
+				if !inProd(f) || !strings.HasPrefix(ir.FuncName(f), "protocol/chainlib") {
+					continue
+				}
+				ir.EachInstr(f, func(in ssa.Instruction) {
+					a, ok := in.(*ssa.Alloc)
+					if !ok || !strings.HasSuffix(ir.TypeName(a.Type()), "extensionslib.ExtensionKey") {
+						return
+					}
+					fs := structFieldStores(a)
+					if len(fs) == 0 {
+						return // a zero value or a copy, not a literal being filled in
+					}
+					nKeys++
+					var missing []string
+					for _, fld := range []string{"Extension", "ConnectionType", "InternalPath", "Addon"} {
+						if _, ok := fs[fld]; !ok {
+							missing = append(missing, fld)
+						}
+					}
+					key := "C38g/" + ir.FuncName(f) + "/ExtensionKey-names-all-four-components"
+					if len(missing) == 0 {
+						c.OK(key, c.P.InstrPos(in), "Extension, ConnectionType, InternalPath, Addon")
+					} else {
+						c.Fail(key, c.P.InstrPos(in), "an ExtensionKey is built without "+strings.Join(missing, ", ")+": it addresses the add-on \"\"/root key space only, so extensions of other collections are configured or looked up under the wrong key")
+					}
+				})
+			}
+			if nKeys < 2 {
+				c.Undecided("C38g: expected at least 2 ExtensionKey literals in protocol/chainlib, found %d", nKeys)
+			}
+		}
 		c.NotCovered("totality: no panic/hang on arbitrary bytes in the four ParseMsg implementations and third-party JSON/protobuf decoders; CU >= 1 (spec validation, C22); determinism of the parser given equal specs")
 	})
 }
